@@ -18,3 +18,7 @@ import PPProofs.Props.C06Term
 #print axioms PP.Parse.advancing_of_nonempty
 #print axioms PP.Parse.exG_advancing
 #print axioms PP.Parse.rankOk_spec
+#print axioms PP.Parse.consumes_sound
+#print axioms PP.Parse.advancing_of_advOk
+#print axioms PP.Parse.acyclic_terminates_checked
+#print axioms PP.Parse.entry_points_terminate_checked
